@@ -2,6 +2,7 @@ package props
 
 import (
 	"fmt"
+	"os"
 	"sort"
 	"strings"
 	"sync"
@@ -311,6 +312,83 @@ func genRandomBytes(t *rapid.T, maxN int) []string {
 	return sortedSet(set)
 }
 
+// genKmix: medium-size structured tries that combine the node kinds: a wide byte
+// fan-out at the top (257-bit nodes), regular nibble subtrees below (many equal
+// bitmaps -> short nodes), optional steps. Together with long value runs this
+// gives big nodes that keep only a few labels after de-duplication.
+func genKmix(t *rapid.T, maxN int) []string {
+	nf := rapid.IntRange(11, 48).Draw(t, "nfirst")
+	lowFirst := rapid.IntRange(0, 6).Draw(t, "lowfirst") // how many first bytes come from 0x00..0x0f
+	depth := rapid.IntRange(2, 6).Draw(t, "depth")
+	npairs := rapid.IntRange(1, 12).Draw(t, "npairs")
+	stepLen := rapid.IntRange(0, 3).Draw(t, "steplen")
+	seed := rapid.Uint64().Draw(t, "seed")
+	rng := &sm64{seed}
+	var pairs [][2]byte
+	for len(pairs) < npairs {
+		a, b := byte(rng.intn(16)), byte(rng.intn(16))
+		if a != b {
+			if a > b {
+				a, b = b, a
+			}
+			pairs = append(pairs, [2]byte{a, b})
+		}
+	}
+	var firsts []byte
+	used := map[byte]bool{}
+	if rapid.Bool().Draw(t, "alias") && lowFirst >= 2 {
+		// bytes 0x00..0x0f of a 257-bit node occupy the same bitmap positions as the
+		// nibbles of a 17-bit node: let the low first bytes coincide with a nibble pair
+		p := pairs[rng.intn(len(pairs))]
+		firsts = append(firsts, p[0], p[1])
+		used[p[0]], used[p[1]] = true, true
+		lowFirst = 2
+	}
+	for len(firsts) < lowFirst {
+		b := byte(rng.intn(16))
+		if !used[b] {
+			used[b] = true
+			firsts = append(firsts, b)
+		}
+	}
+	for len(firsts) < nf {
+		b := byte(0x10 + rng.intn(0xf0))
+		if !used[b] {
+			used[b] = true
+			firsts = append(firsts, b)
+		}
+	}
+	var out [][]byte
+	node := 0
+	var rec func(path []byte, d int)
+	rec = func(path []byte, d int) {
+		if len(out) >= maxN {
+			return
+		}
+		if d == 0 {
+			out = append(out, append([]byte{}, path...))
+			return
+		}
+		p := pairs[node%len(pairs)]
+		node++
+		rec(append(append([]byte{}, path...), p[0]), d-1)
+		rec(append(append([]byte{}, path...), p[1]), d-1)
+	}
+	for _, f := range firsts {
+		path := []byte{f >> 4, f & 0xf}
+		for i := 0; i < 2*stepLen; i++ {
+			path = append(path, byte(rng.intn(16)))
+		}
+		switch rng.intn(5) {
+		case 0:
+			out = append(out, append([]byte{}, path...)) // a single key below this first byte
+		default:
+			rec(path, depth)
+		}
+	}
+	return nibblesToKeys(out, byte(rng.intn(16)))
+}
+
 // ---------------------------------------------------------------------------
 // K4 long keys
 
@@ -488,10 +566,13 @@ type famWeight struct {
 }
 
 var defaultFamilies = []famWeight{
-	{"K1", 30}, {"K2", 18}, {"K3", 10}, {"K4", 7}, {"K5", 10}, {"K6", 8}, {"K7", 5}, {"Krand", 6}, {"Kshort", 6},
+	{"K1", 30}, {"K2", 18}, {"K3", 10}, {"K4", 7}, {"K5", 10}, {"K6", 8}, {"K7", 5}, {"Krand", 6}, {"Kshort", 6}, {"Kmix", 8},
 }
 
 func genKeysFam(t *rapid.T, fams []famWeight, sc sizeCap) ([]string, string) {
+	if only := os.Getenv("VERIF_ONLY_FAM"); only != "" {
+		fams = []famWeight{{only, 1}} // generator experiments only
+	}
 	total := 0
 	for _, f := range fams {
 		total += f.w
@@ -522,6 +603,11 @@ func genKeysFam(t *rapid.T, fams []famWeight, sc sizeCap) ([]string, string) {
 		keys = genK6(t, maxN)
 	case "K7":
 		keys = genK7(t, maxN)
+	case "Kmix":
+		if maxN < 3000 {
+			maxN = 3000
+		}
+		keys = genKmix(t, maxN)
 	case "Krand":
 		keys = genRandomBytes(t, maxN)
 	case "Kshort":
@@ -568,10 +654,13 @@ func genKeys(t *rapid.T) ([]string, string) {
 // genVals draws payloads for n keys. Modes: distinct, runs, aba, random, pairdup.
 func genVals(t *rapid.T, n int, enc string, forceRuns bool) ([]Hex, string) {
 	s := encSpecs[enc]
-	modes := []string{"distinct", "runs", "runs", "aba", "random", "pairdup", "const"}
+	modes := []string{"distinct", "runs", "runs", "longruns", "aba", "random", "pairdup", "const"}
 	mode := modes[pickU(t, "valmode", len(modes))]
 	if forceRuns && (mode == "distinct" || mode == "random") {
 		mode = "runs"
+	}
+	if n > 200 && rapid.IntRange(0, 5).Draw(t, "longrunsForBig") == 0 {
+		mode = "longruns" // on larger sets whole branches should share a value now and then
 	}
 	seed := rapid.Uint64().Draw(t, "vseed")
 	rng := &sm64{seed}
@@ -612,6 +701,11 @@ func genVals(t *rapid.T, n int, enc string, forceRuns bool) ([]Hex, string) {
 				id++
 			}
 			vals[i] = payload(id)
+		case "longruns": // mean run length 10*runP .. : whole branches share one value
+			if i > 0 && rng.intn(10*runP+1) == 0 {
+				id++
+			}
+			vals[i] = payload(id)
 		case "aba":
 			vals[i] = payload(base + uint64(rng.intn(3)))
 		case "random":
@@ -627,6 +721,63 @@ func genVals(t *rapid.T, n int, enc string, forceRuns bool) ([]Hex, string) {
 		}
 	}
 	return vals, mode
+}
+
+// genBranchVals: values that follow the top-level branch structure of the key
+// set ("runs that cover whole branches / cross sub-trie boundaries"). Every
+// group of keys sharing the first byte either gets distinct values inside (D),
+// continues the previous key's value for the whole branch (C), or gets one new
+// value for the whole branch (N).
+func genBranchVals(t *rapid.T, keys []string, enc string) []Hex {
+	s := encSpecs[enc]
+	pC := rapid.SampledFrom([]int{30, 70, 95, 99}).Draw(t, "pContinue")
+	pD := rapid.SampledFrom([]int{10, 50, 90}).Draw(t, "pDistinct")
+	headD := rapid.IntRange(0, 4).Draw(t, "headDistinct") // the first branches always get distinct values
+	seed := rapid.Uint64().Draw(t, "bseed")
+	rng := &sm64{seed}
+	payload := func(id uint64) Hex {
+		if s.name == "String16" {
+			return Hex(fmt.Sprintf("b%x", id))
+		}
+		if s.width == 0 {
+			return Hex(leBytes(id, 4))
+		}
+		return Hex(leBytes(id, s.width))
+	}
+	vals := make([]Hex, len(keys))
+	id := uint64(1)
+	branch := -1
+	mode := byte('D')
+	for i, k := range keys {
+		first := -1
+		if len(k) > 0 {
+			first = int(k[0])
+		}
+		if i == 0 || first != func() int {
+			if len(keys[i-1]) > 0 {
+				return int(keys[i-1][0])
+			}
+			return -1
+		}() {
+			branch++
+			switch {
+			case branch < headD:
+				mode = 'D'
+			case rng.intn(100) < pC:
+				mode = 'C'
+			case rng.intn(100) < pD:
+				mode = 'D'
+			default:
+				mode = 'N'
+				id++
+			}
+		}
+		if mode == 'D' {
+			id++
+		}
+		vals[i] = payload(id)
+	}
+	return vals
 }
 
 // ---------------------------------------------------------------------------
@@ -734,7 +885,11 @@ func genTrieCase(t *rapid.T, g trieGenOpt) *Case {
 	}
 	c.HasVals = g.needVals || rapid.IntRange(0, 4).Draw(t, "hasvals") != 0
 	if c.HasVals {
-		c.Vals, c.VMode = genVals(t, len(keys), c.Enc, g.forceRuns)
+		if len(keys) >= 8 && pickU(t, "branchvals", 6) == 0 {
+			c.Vals, c.VMode = genBranchVals(t, keys, c.Enc), "branch"
+		} else {
+			c.Vals, c.VMode = genVals(t, len(keys), c.Enc, g.forceRuns)
+		}
 	}
 	c.Load = genLoad(t)
 	return c
